@@ -11,7 +11,7 @@ use std::time::Duration;
 
 pub struct C13;
 
-const RECEIVER: &str = r#"<scxml xmlns="http://www.w3.org/2005/07/scxml" version="1.0" name="rx" datamodel="rfsm-expression">
+const RECEIVER: &str = r##"<scxml xmlns="http://www.w3.org/2005/07/scxml" version="1.0" name="rx" datamodel="rfsm-expression">
   <datamodel><data id="last" expr="''"/><data id="k" expr="0"/></datamodel>
   <state id="s">
     <transition event="p">
@@ -28,10 +28,29 @@ const RECEIVER: &str = r#"<scxml xmlns="http://www.w3.org/2005/07/scxml" version
         <send eventexpr="'p.' + _event.data.who + '.' + k" delayexpr="(k + 1) + 'ms'"/>
       </foreach>
     </transition>
+    <transition event="kick">
+      <send target="#_kid" event="burst"><param name="who" expr="_event.data.who"/><param name="ks" location="_event.data.ks"/></send>
+    </transition>
     <transition event="stop" target="done"/>
+    INVOKE
   </state>
   <final id="done"/>
-</scxml>"#;
+</scxml>"##;
+
+/// Invoked by the receiver when the scenario has an `InvokedChild` producer: answers `burst` with
+/// a run of events to `#_parent`.
+const CHILD_INVOKE: &str = r##"<invoke id="kid" type="scxml"><content>
+      <scxml xmlns="http://www.w3.org/2005/07/scxml" version="1.0" name="kid" datamodel="rfsm-expression">
+        <datamodel><data id="k" expr="0"/></datamodel>
+        <state id="c">
+          <transition event="burst">
+            <foreach array="_event.data.ks" item="k">
+              <send eventexpr="'p.' + _event.data.who + '.' + k" target="#_parent"/>
+            </foreach>
+          </transition>
+        </state>
+      </scxml>
+    </content></invoke>"##;
 
 const SENDER: &str = r#"<scxml xmlns="http://www.w3.org/2005/07/scxml" version="1.0" name="tx" datamodel="rfsm-expression">
   <datamodel><data id="k" expr="0"/></datamodel>
@@ -52,6 +71,7 @@ enum Kind {
     HostExecutor,
     SiblingSession,
     Timers,
+    InvokedChild,
 }
 
 struct Producer {
@@ -72,13 +92,22 @@ fn decode(tape: &[u8]) -> Scenario {
     let n = 1 + t.below(8);
     let mut producers = Vec::new();
     let mut timers = 0;
+    let mut kids = 0;
     for _ in 0..n {
-        let mut kind = match t.below(6) {
+        let mut kind = match t.below(7) {
             0 | 1 => Kind::HostSender,
             2 | 3 => Kind::HostExecutor,
             4 => Kind::SiblingSession,
-            _ => Kind::Timers,
+            5 => Kind::Timers,
+            _ => Kind::InvokedChild,
         };
+        if kind == Kind::InvokedChild {
+            // one invoked child per receiver (fixed invoke id)
+            kids += 1;
+            if kids > 1 {
+                kind = Kind::HostExecutor;
+            }
+        }
         if kind == Kind::Timers {
             timers += 1;
             if timers > 1 {
@@ -103,7 +132,7 @@ impl Check for C13 {
         "C13"
     }
     fn rule(&self) -> String {
-        "scenarios with 1-8 concurrent producers (released by a barrier) x 1-60 events each, producers of four kinds: host thread through a clone of the session's sender, host thread through FsmExecutor::send_to_session, a sibling session that sends in a <foreach>, delayed self-sends fired by the timer thread; generated sleeps in the producers, an optional pause inside the receiver's macrostep, optional seeded jitter at lock acquisitions (hook). \
+        "scenarios with 1-8 concurrent producers (released by a barrier) x 1-60 events each, producers of five kinds: host thread through a clone of the session's sender, host thread through FsmExecutor::send_to_session, a sibling session that sends in a <foreach>, delayed self-sends fired by the timer thread, a child session invoked by the receiver that sends to '#_parent' in a <foreach>; generated sleeps in the producers, an optional pause inside the receiver's macrostep, optional seeded jitter at lock acquisitions (hook). \
          Receiver: stores _event.name, marks it, raises two internal follow-up events whose handlers mark the stored name. Oracle on the receiver's mark log: multiset processed == multiset sent (exactly once); every producer's events in its send order; each event immediately followed by its own two follow-up marks (no overlap of macrosteps). \
          Non-trivial = >= 2 producers whose events are genuinely interleaved in the processing order; distinct = hash of the observed order."
             .into()
@@ -129,7 +158,8 @@ impl Check for C13 {
         rufsm::verif_sync::set_tracking(sc.jitter != 0);
         rufsm::verif_sync::set_jitter(sc.jitter);
         let mut scen = Scen::new();
-        let rx = match scen.start(&RECEIVER.replace("PAUSE", &sc.pause_us.to_string()), &[]) {
+        let has_kid = sc.producers.iter().any(|p| p.kind == Kind::InvokedChild);
+        let rx = match scen.start(&RECEIVER.replace("PAUSE", &sc.pause_us.to_string()).replace("INVOKE", if has_kid { CHILD_INVOKE } else { "" }), &[]) {
             Ok(i) => i,
             Err(e) => return CaseResult::error(e),
         };
@@ -182,6 +212,11 @@ impl Check for C13 {
                         let mut e = Event::new_simple("burst");
                         e.param_values = Some(vec![ParamPair::new("ks", &int_array(count)), ParamPair::new("who", &Data::Integer(i as i64)), ParamPair::new("rx", &Data::Integer(rx_id as i64))]);
                         let _ = sib_sender.unwrap().send(Box::new(e));
+                    }
+                    Kind::InvokedChild => {
+                        let mut e = Event::new_simple("kick");
+                        e.param_values = Some(vec![ParamPair::new("ks", &int_array(count)), ParamPair::new("who", &Data::Integer(i as i64))]);
+                        let _ = sender.send(Box::new(e));
                     }
                     Kind::Timers => {
                         let mut e = Event::new_simple("arm");
